@@ -51,6 +51,8 @@ const (
 
 	// F-C11-2: "<prefix><function that dereferenced node.value()>"
 	c11FpNilPid = "node-cleared-nil-pid:"
+	// F-C11-3
+	c11FpLateWatch = "stop-before-death-watch-registration-leaves-node"
 
 	c11Cap = 15 * time.Second
 )
@@ -191,6 +193,7 @@ type c11Env struct {
 	// single-flight keys of the four names (Spawn/SpawnNamedFromFunc: the actor
 	// reference; SpawnChild: the child address)
 	flightKeys []string
+	dwBase     int64 // messages the death watch had handled before the first spawn
 	clock      atomic.Int64
 	mu         sync.Mutex
 	insts      []*c11Inst
@@ -346,20 +349,44 @@ func (e *c11Env) doSpawn(ctx context.Context, cl c11Call, in *c11Inst) (*PID, er
 	}
 }
 
-// settle waits (without any timing assumption about how long it takes) until the
-// death watch has consumed every Terminated message: every stop call has returned,
-// so every Terminated is already in its mailbox; idle + empty mailboxes is final.
-func (e *c11Env) settle() bool {
+// settle waits until the death watch has consumed every Terminated message. Every
+// stop call has returned, so every Terminated is already in its mailbox. The death
+// watch handles one PostStart plus one Terminated per stopped actor it watches, so
+// the primary criterion is its processed-message count reaching its count before the
+// case's first spawn + the number of PostStop runs, with its turn finished. (Its mailboxes cannot be read reliably from
+// outside the consumer: IsEmpty is documented as consumer-only, and "idle" is also
+// visible for an instant inside finishOrReclaim while a message is pending.) When a
+// Terminated was never sent (an actor outside the tree, or the finding
+// stop-before-death-watch-registration) the count is never reached: then idle +
+// empty + an unchanged count for two seconds without interruption is accepted.
+func (e *c11Env) settle(postStops func() int64) bool {
 	dw := e.sys.getDeathWatch()
+	if dw == nil {
+		return true
+	}
 	deadline := time.Now().Add(c11Cap)
+	var stableSince time.Time
+	last := -1
 	for {
-		if dw.schedState.Load() == dispatchIdle && dw.mailbox.IsEmpty() && dw.systemMailbox.IsEmpty() {
+		n := dw.ProcessedCount()
+		idle := dw.schedState.Load() == dispatchIdle
+		if idle && int64(n) >= e.dwBase+postStops() {
 			return true
 		}
+		if idle && n == last && dw.mailbox.IsEmpty() && dw.systemMailbox.IsEmpty() {
+			if stableSince.IsZero() {
+				stableSince = time.Now()
+			} else if time.Since(stableSince) > 2*time.Second {
+				return true
+			}
+		} else {
+			stableSince = time.Time{}
+		}
+		last = n
 		if time.Now().After(deadline) {
 			return false
 		}
-		time.Sleep(50 * time.Microsecond)
+		time.Sleep(200 * time.Microsecond)
 	}
 }
 
@@ -429,6 +456,14 @@ func c11Exec(x *vfkit.X, c c11Case) {
 	if !c11AwaitGuardians(sys) {
 		x.Class("inconclusive_guardians_not_started")
 		return
+	}
+	{
+		dw := sys.getDeathWatch()
+		deadline := time.Now().Add(5 * time.Second)
+		for (dw.ProcessedCount() < 1 || dw.schedState.Load() != dispatchIdle) && time.Now().Before(deadline) {
+			time.Sleep(50 * time.Microsecond)
+		}
+		e.dwBase = int64(dw.ProcessedCount())
 	}
 	par, err := sys.Spawn(ctx, "par", c11Nop{}, WithLongLived())
 	if err != nil {
@@ -539,7 +574,17 @@ func c11Exec(x *vfkit.X, c c11Case) {
 			}
 		}
 		if rd.Settle || ri == len(c.Rounds)-1 {
-			if !e.settle() {
+			if !e.settle(func() int64 {
+				e.mu.Lock()
+				defer e.mu.Unlock()
+				var total int64
+				for _, in := range e.insts {
+					in.mu.Lock()
+					total += int64(in.postStops)
+					in.mu.Unlock()
+				}
+				return total
+			}) {
 				inconclusive = true
 				x.Class("inconclusive_deathwatch_not_idle")
 				break
@@ -789,6 +834,7 @@ func c11Judge(x *vfkit.X, e *c11Env, c c11Case, results []*c11Result, known, inc
 		}
 	}
 	// O4: registry and counter agree with the live instances
+	lateWatch := 0
 	for n := range c11Names {
 		node, ok := e.sys.tree().node(e.ids[n])
 		if !ok {
@@ -805,8 +851,24 @@ func c11Judge(x *vfkit.X, e *c11Env, c c11Case, results []*c11Result, known, inc
 		if !v.IsRunning() || in.postEnter != 0 {
 			dw := e.sys.getDeathWatch()
 			var ws []string
+			dwStillWatching := false
 			for _, w := range e.sys.tree().watchers(v) {
 				ws = append(ws, w.Name())
+				if w == dw {
+					dwStillWatching = true
+				}
+			}
+			if dwStillWatching {
+				// F-C11-3: the stop ran between tree.addNode and addWatcher(deathWatch) of the
+				// spawn that created this instance: the death watch was not yet a watcher when
+				// freeWatchers listed the watchers, was added afterwards, and never hears of
+				// the stop. Shape: a stopped PID whose node still lists the death watch.
+				if !x.Known(c11FpLateWatch) {
+					x.Failf(c11FpLateWatch, "%s resolves to the stopped instance %d for ever: its node still lists the death watch as a watcher, i.e. the stop listed the watchers before attachAndPublish registered the death watch (tree.addNode and addWatcher are two critical sections), so no Terminated was ever sent to it (death watch processed=%d)\n%s", c11Names[n], in.id, dw.ProcessedCount(), desc())
+				}
+				x.Class("known_stop_before_death_watch_registration")
+				lateWatch++
+				continue
 			}
 			x.Failf("stopped-actor-registered-after-settle", "after the death watch went idle %s still resolves to the stopped instance %d (watchers of the node=%v; death watch: running=%v suspended=%v processed=%d)\n%s", c11Names[n], in.id, ws, dw.IsRunning(), dw.IsSuspended(), dw.ProcessedCount(), desc())
 		}
@@ -815,12 +877,19 @@ func c11Judge(x *vfkit.X, e *c11Env, c c11Case, results []*c11Result, known, inc
 		// third symptom of F-C11-1: addNode fails on the stale node, the death watch
 		// removes it before attachAndPublish looks the canonical instance up, and the
 		// fresh instance is returned counted but unregistered (one count per such instance)
+		if lateWatch > 0 && got > uint64(liveTotal+1) && got <= uint64(liveTotal+1+len(tolerated)+lateWatch) {
+			// the stale node of F-C11-3 keeps its count
+			x.Failf(c11FpLateWatch, "accepted shape of the listed finding (counter keeps the stale node)")
+		}
 		if known && got > uint64(liveTotal+1) && got <= uint64(liveTotal+1+len(tolerated)) {
 			x.Class("known_stale_predecessor_count_drift")
 			c11KnownHit(x, known, len(tolerated))
 			return
 		}
 		x.Failf("actor-count-mismatch", "NumActors()=%d, running user actors=%d (the parent and %d spawned instances)\n%s", got, liveTotal+1, liveTotal, desc())
+	}
+	if lateWatch > 0 {
+		x.Failf(c11FpLateWatch, "accepted shape of the listed finding seen %d time(s)", lateWatch)
 	}
 	c11KnownHit(x, known, len(tolerated))
 }
